@@ -197,6 +197,9 @@ def run(tier='quick'):
                           'a snapshot whose blob is an exact multiple of the chunk size is not stored as a truncated stream',
                    floor=2)
     extra.deflate_complete(prog, chk, R16)
+    R17 = chk.rule('R17', 'no conversion between a snapshot field and its stored form depends on the process environment (time '
+                          'zone, locale, environment variables): timestamps read back as given under every TZ', floor=1)
+    extra.environment_independent(prog, chk, R17)
     return chk.finish('statement-level analysis of the 1.x storage layer and the 2.x track table; value-flow '
                       'interpretation (sa/valueflow.py) of snapshot(), update() and create_track() of both '
                       'generations with every repository callee inlined down to the SQL statements, once per '
